@@ -2,9 +2,22 @@ package verifsim
 
 import (
 	"math/rand"
+	"os"
 	"runtime"
+	"strconv"
 )
 
 func realProcs() int { return runtime.GOMAXPROCS(0) }
 
 func realRandIntn(n int) int { return rand.Intn(n) }
+
+// VERIF_PROCS fixes what Procs() returns outside a simulation, before any
+// instrumented package's init runs (go/ir sizes its package-level cpuLimit
+// semaphore from it).
+func init() {
+	if v := os.Getenv("VERIF_PROCS"); v != "" {
+		if n, err := strconv.Atoi(v); err == nil && n > 0 {
+			procsOverride = n
+		}
+	}
+}
